@@ -273,7 +273,7 @@ def root_local(e, through_calls=False, st=None):
             return e[1]
         elif e[0] in ('via',):
             e = e[2]
-        elif e[0] in ('ref', 'deref'):
+        elif e[0] in ('ref', 'deref', 'refm'):
             e = e[1]
         elif e[0] == 'mutated' and through_calls:
             return None
@@ -293,7 +293,7 @@ def object_value(st, e):
             e = st.env.get(e[1])
         elif e[0] == 'via':
             e = e[2]
-        elif e[0] in ('ref', 'deref'):
+        elif e[0] in ('ref', 'deref', 'refm'):
             e = e[1]
         else:
             return e
